@@ -2,6 +2,7 @@
 # Licensed under the MIT License.
 from __future__ import annotations
 
+import math
 from typing import Any, Optional, Sequence
 
 import numpy as np
@@ -75,6 +76,41 @@ def _get_const_repr(const_node):
             nparray = onnx.numpy_helper.to_array(tensor_proto)  # noqa: TID251
             return repr(nparray.tolist())
     return None
+
+
+def _scalar_repr(x: Any) -> str:
+    """Python expression (in a module that imports numpy as np) for one tensor element."""
+    if isinstance(x, complex):
+        # repr((1-0j)) / repr(complex(1, inf)) do not evaluate back to the same value
+        return f"complex({_scalar_repr(x.real)}, {_scalar_repr(x.imag)})"
+    if isinstance(x, float):
+        if math.isnan(x):
+            return "np.nan"
+        if math.isinf(x):
+            return "np.inf" if x > 0 else "-np.inf"
+    return repr(x)
+
+
+# make_tensor(vals=[python floats]) saturates/rounds for these types: keep their bytes
+_RAW_ONLY_TYPES = frozenset(
+    getattr(TensorProto, name)
+    for name in (
+        "FLOAT8E4M3FN",
+        "FLOAT8E4M3FNUZ",
+        "FLOAT8E5M2",
+        "FLOAT8E5M2FNUZ",
+        "FLOAT8E8M0",
+    )
+    if hasattr(TensorProto, name)
+)
+
+
+def _make_tensor_repr(onnx_dtype: int, value: np.ndarray) -> str:
+    dims = list(value.shape)
+    if onnx_dtype in _RAW_ONLY_TYPES:
+        return f'make_tensor("value", {onnx_dtype}, dims={dims!r}, vals={value.tobytes()!r}, raw=True)'
+    vals = ", ".join(_scalar_repr(x) for x in value.ravel().tolist())
+    return f'make_tensor("value", {onnx_dtype}, dims={dims!r}, vals=[{vals}])'
 
 
 def _cleanup_variable_name(name: ValueInfoProto | str) -> str:
@@ -398,17 +434,7 @@ class _Exporter:
                 attributes.append((at.name, repr(value)))
                 continue
             if isinstance(value, np.ndarray):
-                onnx_dtype = at.t.data_type
-                if len(value.shape) == 0:
-                    text = (
-                        f'make_tensor("value", {onnx_dtype}, dims=[], '
-                        f"vals=[{repr(value.tolist()).replace('nan', 'np.nan').replace('inf', 'np.inf')}])"
-                    )
-                else:
-                    text = (
-                        f'make_tensor("value", {onnx_dtype}, dims={list(value.shape)!r}, '
-                        f"vals={repr(value.ravel().tolist()).replace('nan', 'np.nan').replace('inf', 'np.inf')})"
-                    )
+                text = _make_tensor_repr(at.t.data_type, value)
                 attributes.append((at.name, text))
                 continue
             if isinstance(value, TensorProto):
